@@ -347,8 +347,9 @@ def languages_for_file(file_name_or_pattern: str) -> list[LanguageDesc]:
     """
     file_languages = []
     for language in language_descriptions().values():
-        if TYPE_CHECKING:
-            assert language.pattern is not None
+        if language.pattern is None:
+            # A language registered without a file pattern matches no file.
+            continue
         if file_name_or_pattern == language.pattern or fnmatch.fnmatch(
             file_name_or_pattern, language.pattern
         ):
